@@ -212,16 +212,18 @@ InWindow(q, size) == LET x == FMul(q, size) IN FLeq("0.0999", x) /\ FLeq(x, "20.
 \* ratio off by a factor >= 2.  The absolute term covers the rounding of I = x + bkg when
 \* bkg # 0 (one ulp of each intensity).
 RTol == "1e-12"
-IFactor(lam, mu) == FMul(LamPow(lam, 3), LamPow(mu, 2))
-LawIPoint(i0, i1, bkg, lam, mu) ==
-    LET f == IFactor(lam, mu)
-        atol == FMul("1e-15", FAdd(FAbs(i1), FMul(f, FAbs(i0))))
+\* factor of I - bkg for an observable of length degree d (the property: d = 3)
+IFactorD(lam, mu, d) == FMul(LamPow(lam, d), LamPow(mu, 2))
+IFactor(lam, mu) == IFactorD(lam, mu, 3)
+LawIPoint(i0, i1, bkg, f) ==
+    LET atol == FMul("1e-15", FAdd(FAbs(i1), FMul(f, FAbs(i0))))
     IN  IF FIsFinite(i0) /\ FIsFinite(i1)
         THEN FNear(FSub(i1, bkg), FMul(f, FSub(i0, bkg)), RTol, atol)
         ELSE FIsFinite(i0) = FIsFinite(i1)
-LawI(I0, I1, bkg, lam, mu) ==
+LawIWith(I0, I1, bkg, f) ==
     /\ Len(I0) = Len(I1)
-    /\ \A j \in 1..Len(I0) : LawIPoint(I0[j], I1[j], bkg, lam, mu)
+    /\ \A j \in 1..Len(I0) : LawIPoint(I0[j], I1[j], bkg, f)
+LawI(I0, I1, bkg, lam, mu) == LawIWith(I0, I1, bkg, IFactor(lam, mu))
 LawReff(r0, r1, lam) == Len(r0) = Len(r1) /\ FVecNear(r1, FVecScale(lam, r0), RTol, Zero)
 \* a model whose form_volume is the constant 1 (lamellar phases, raspberry: "normalisation
 \* happens in Iq") does not report a volume; recognised by both observations being exactly 1
